@@ -1,6 +1,7 @@
 package proxy
 
 import (
+	"context"
 	"errors"
 	"fmt"
 	"log/slog"
@@ -305,7 +306,10 @@ func (f *fetcher) dedupFetch(req *http.Request, key cache.CacheKey, clientHd *he
 	originalClientHd := *clientHd // Copy the original client headers so the shared requests don't get a modified version
 
 	fetchedObj, err, shared := f.group.Do(key.Hex, func() (any, error) {
-		return f.getFromCacheOrFetch(req, key, clientHd)
+		// The fetch is shared by every request that joins it, so it must not be cancelled
+		// when the client that happened to start it goes away.
+		sharedReq := req.WithContext(context.WithoutCancel(req.Context()))
+		return f.getFromCacheOrFetch(sharedReq, key, clientHd)
 	})
 	if err != nil {
 		if errors.Is(err, ErrNotCacheable) {
